@@ -90,9 +90,9 @@ CLAIMED = {
 }
 
 # additions made after the first build (sub-checks that were added later); appended to the texts above
-INCTX = " Additionally whole programs over the RAND-free registry on generated states run in lock-step with the reference interpreter (sub-check in-program-context: the operand states are the ones executions reach) and, in the thorough tier, a coverage-guided libFuzzer campaign (target lockstep_ref, same oracle, 10^6 executions) searches for mismatches at the instructions this property owns."
+INCTX = " Additionally whole programs over the RAND-free registry on generated states run in lock-step with the reference interpreter (sub-check in-program-context: the operand states are the ones executions reach) and, in the thorough tier, a coverage-guided libFuzzer campaign (target lockstep_ref, same oracle, 10^6 executions) searches for mismatches at the instructions this property owns. Two history-oriented variants run in both tiers: in-program-context-focused (three quarters of the instruction atoms are instructions this property owns, programs twice as long, so an instruction meets the operands its own earlier executions left behind) and related-calls (one or two owned instructions called 4..8 times in a row through one registry instance on states that differ in exactly one operand slot drawn from a small pool; every call is compared with the reference, so a result that depends on an earlier call - a memo keyed on part of the operands, a scratch buffer, a cursor - is a mismatch)."
 ADDENDA = {
- "C01": ("; GRAPH.* instruction histories; libFuzzer target exec_program (thorough)", " GRAPH.* instruction histories (stacked graphs that share node ids) are executed crash-only; the thorough tier adds a libFuzzer campaign (exec_program)."),
+ "C01": ("; GRAPH.* instruction histories; INPUT/OUTPUT queue histories of a long-lived state; libFuzzer target exec_program (thorough)", " GRAPH.* instruction histories (stacked graphs that share node ids) and INPUT/OUTPUT histories (2..6 segments: the host queues and takes messages, then IO programs run, so the ring cursors wrap and a partly consumed queue is refilled) are executed crash-only; the thorough tier adds a libFuzzer campaign (exec_program)."),
  "C02": ("; run() on custom / never-loaded instruction sets; command-line front end's copy onto CODE", " Further sub-checks: a slow step under a short time limit must end with TimeLimitExceeded; run() equals stepping on never-loaded and hand-registered instruction sets and leaves the caller's set unchanged; the pushr binary's first trace shows CODE = EXEC for multi-item texts; PushState::size() accounting."),
  "C03": ("; libFuzzer target parse_text with a token dictionary (thorough)", " Names that spell an instruction in another letter case, tokens around 255 bytes with multi-byte characters, integers with leading zeros; parsing with an empty registry and again with the full one on the same thread; nesting up to 700 levels compared structurally."),
  "C04": ("; lock-step in program context (generated + libFuzzer lockstep_ref)", INCTX),
@@ -103,13 +103,14 @@ ADDENDA = {
  "C09": ("; lock-step in program context (generated + libFuzzer lockstep_ref)", " The grid also holds lengths 12..100 with 15 offsets." + INCTX),
  "C11": ("; deep and wide programs; registry independence; libFuzzer target roundtrip_text (thorough)", " Combs nested up to 300 levels, lists and top levels of up to 30 000 items, user-registered instruction names, the same text parsed with an empty and then the full registry; thorough: libFuzzer target roundtrip_text (any text s: parse(print(parse s)) = parse s)."),
  "C12": ("", " Instruction lists include a caller's own list (not upper case, unsorted, with a duplicate), judged as supplied; binding tables are renamed per work item."),
- "C13": ("", " Also sizes 65 536 / 65 537 / 100 000 and FLOAT.RAND intervals a few ulps wide."),
+ "C13": ("; call histories on one thread", " Also sizes 65 536 / 65 537 / 100 000 and FLOAT.RAND intervals a few ulps wide. Sub-check call-histories: 2..7 generator calls back to back on one thread with parameters from small pools (consecutive calls share one bound and differ in the other); every call of a history must satisfy the per-draw invariants whatever was drawn before it."),
  "C14": ("", " Jobs carry an 8 s interpreter time limit (a job that no longer ends by its step limit ends differently instead of hanging); jobs comparing code nested 50..400 levels expose state left on a thread; single-instruction jobs over the boundary pools; fresh-process reverse-order leg."),
  "C15": ("; CPU time per step; nesting-depth sweep", " Now: magnitudes up to 2^31-1 on three base states (a sweep stops at its first failure), FLOAT operand magnitudes, thread CPU time per step <= 0.4 s, and every instruction with a CODE/EXEC operand on code nested 4..128 levels deep."),
- "C16": ("; deep stacks; extreme positions", " Positions up to usize::MAX, item twins that print alike, and stacks of up to 25 000 (thorough 300 000) items filled by push / push_front / push_vec."),
+ "C16": ("; deep stacks; extreme positions", " Positions up to usize::MAX, item twins that print alike, and stacks of up to 25 000 (thorough 300 000) items filled by push / push_front / push_vec; one block in four of a random sequence is a bulk block of 4..47 items (longer than the stack it lands on)."),
  "C17": ("; lock-step in program context (generated + libFuzzer lockstep_ref)", " Registered INPUT.* / OUTPUT.* names beyond the documented eight must not drop or reorder the other queue's pending messages." + INCTX),
  "C18": ("", " Weights include values one ulp apart, infinities, NaN and signed zeros; a ReAddEdge operation."),
  "C19": ("; lock-step in program context (generated + libFuzzer lockstep_ref)", " Records hold INDEX literals and non-finite floats." + INCTX),
+ "C10": ("", " Guards added later: FLOATVECTOR./ with the zero divisor facing a (signed) zero dividend; GRAPH.EDGE*ADD / SETWEIGHT / GETWEIGHT with one live id of a node that already has edges and one id that names no node, in both operand positions."),
  "C20": ("; large topologies; random-order queries; lock-step in program context", " Lines of up to 300 000 cells, squares / cubes of 100 000 cells and 12 dimensions against the brute-force ball; query sequences in random order on one thread." + INCTX),
 }
 NOTE_FIX = {
